@@ -473,6 +473,13 @@ def _nesting(ctx):
                         fn[0] == "call" and fn[1] == "functools.partial"
                         and fn[2][:1] in ((("name", PX + inner),),
                                           (("free", PX + inner),))))
+                if not ok_fn and t[0] == "comp" and t[1] in (
+                        "list", "gen") and len(t[3]) == 1 and \
+                        not t[3][0][2] and t[2][0] == "call" and \
+                        t[2][1] == PX + inner and any(
+                            a == ("elem", t[3][0][1]) for a in t[2][2]):
+                    # (inner(x) for x in X): the same map, spelled out
+                    ok_fn = True
                 sites.append((n, "map" if ok_fn else None))
         ctx.require(sites and all(k is not None for _n, k in sites),
                     f"{g.qual}: what is yielded is not {inner}(...) per "
@@ -595,25 +602,46 @@ def _nesting(ctx):
     ctx.check(bool(ok_r), "C20c-run-file-name", run,
               "every PSM of a run carries the run's base_name as data file",
               f"run info is {[show(i, 120) for i in infos]}", node=run.node)
-    # two flattenings in _parse_pepxml
-    txt = ast.unparse(top.node)
-    n_flat = txt.count("itertools.chain.from_iterable(")
-    maps = [n for n in ast.walk(top.node) if isinstance(n, ast.Call)
-            and callee_is(ctx.prog, top, n, "map")]
-    ok_t = n_flat == 2 and len(maps) == 1 and "from_records" in txt
+    # two flattenings in _parse_pepxml: records = flatten(flatten(
+    #   run parser mapped over the runs of the file))
+    from ..tutil import flattened_of
     du = DefUse(prog, top)
     T = Terms(du)
-    fr = [n for n in ast.walk(top.node) if isinstance(n, ast.Call)
-          and ast.unparse(n.func).endswith("from_records")]
-    if fr:
-        t = T.of(fr[0].args[0])
-        depth = 0
-        x = t
-        while x[0] == "call" and x[1] == "itertools.chain.from_iterable":
-            depth += 1
-            x = x[2][0]
-        ok_t = ok_t and depth == 2 and x[0] == "call" and x[1] == \
-            "builtins.map"
+    fr = [(t_, n) for n in ast.walk(top.node) if isinstance(n, ast.Call)
+          for t_ in [T.of(n)] if t_[0] == "call"
+          and t_[1].endswith("DataFrame.from_records") and t_[2]]
+    ctx.require(len(fr) == 1, f"{top.qual}: DataFrame.from_records call "
+                "not found")
+    x = fr[0][0][2][0]
+    depth = 0
+    while flattened_of(x) is not None:
+        depth += 1
+        x = flattened_of(x)
+    n_flat = depth
+
+    def run_parser(t):
+        """_parse_msms_run, directly or through functools.partial"""
+        if t[0] in ("name", "free") and t[1].endswith("_parse_msms_run"):
+            return True
+        return t[0] == "call" and t[1] == "functools.partial" and t[2] \
+            and run_parser(t[2][0])
+
+    mapped = None
+    if x[0] == "call" and x[1] == "builtins.map" and len(x[2]) == 2 and \
+            run_parser(x[2][0]):
+        mapped = x[2][1]
+    elif x[0] == "comp" and x[1] in ("list", "gen") and len(x[3]) == 1 and \
+            not x[3][0][2]:
+        elt, src = x[2], x[3][0][1]
+        if elt[0] == "callv" and run_parser(elt[1]) and \
+                ("elem", src) in elt[2]:
+            mapped = src
+        elif elt[0] == "call" and elt[1].endswith("_parse_msms_run") and \
+                elt[2] and elt[2][0] == ("elem", src):
+            mapped = src
+    ok_t = depth == 2 and mapped is not None and any(
+        y[0] == "call" and y[1].endswith("etree.iterparse")
+        for y in walk_term(mapped))
     ctx.check(ok_t, "C20c-flattened-twice", top,
               "runs of spectra of hits are flattened exactly twice into "
               "one record per hit", f"{n_flat} flattenings", node=top.node)
